@@ -1,3 +1,5 @@
+
+
 // SPDX-License-Identifier: MIT
 // (no version pragma at all)
 contract Bare {
